@@ -5,6 +5,7 @@
 package main
 
 import (
+	"bytes"
 	"encoding/hex"
 	"encoding/json"
 	"flag"
@@ -162,6 +163,13 @@ func mkArgs(as []Arg) []*pb.Arg {
 
 func (r *runner) build(n *core.Node, t Tx) pb.Transaction {
 	from := r.acct(n, t.From)
+	for i := range t.Args {
+		if t.Args[i].V == "@from" { // the caller's own address as an argument
+			as := append([]Arg{}, t.Args...)
+			as[i].V = from.Addr.String()
+			t.Args = as
+		}
+	}
 	var tx pb.Transaction
 	switch t.K {
 	case "transfer":
@@ -311,6 +319,7 @@ func (r *runner) run(dir string) {
 	bal0, _, _ := lockstep.Balances(r.a)
 	r.emit(map[string]interface{}{"ev": "Init", "name": p.Name, "admins": admins, "nadmins": len(admins), "accounts": known,
 		"h": int(r.a.Height()), "bal": bal0, "setupEqual": pair.SetupEqual()})
+	var pastViews []Tx
 	for bi, blk := range p.Blocks {
 		var txs []pb.Transaction
 		descs := []map[string]interface{}{}
@@ -379,7 +388,34 @@ func (r *runner) run(dir string) {
 			r.emit(map[string]interface{}{"ev": "View", "n": len(vtx), "nrec": len(rcs), "changed": lockstep.DiffKeys(d0, r.a.Dump()),
 				"metaSame": m0.Height == m1.Height && m0.BlockHash.String() == m1.BlockHash.String() && m0.InterchainTxCount == m1.InterchainTxCount})
 		}
+		// what earlier views left behind: the view executor that ran them and a view executor made for the occasion must give
+		// the same answers to the same read-only calls, whatever was committed in between
+		if len(pastViews) > 0 {
+			var vtx []pb.Transaction
+			for _, t := range pastViews {
+				vtx = append(vtx, r.build(r.a, t))
+				r.a.SetNonce(r.acct(r.a, t.From).Addr, r.a.LedgerNonce(r.acct(r.a, t.From).Addr))
+			}
+			warm := r.a.View(vtx)
+			fresh, err := r.a.FreshView(vtx)
+			if err == nil {
+				diff := []int{}
+				for i := range vtx {
+					if i >= len(warm) || i >= len(fresh) || warm[i].Status != fresh[i].Status || !bytes.Equal(warm[i].Ret, fresh[i].Ret) {
+						diff = append(diff, i)
+					}
+				}
+				r.emit(map[string]interface{}{"ev": "ViewProbe", "n": len(vtx), "same": len(diff) == 0, "diff": diff})
+			}
+		}
+		if vs, ok := p.Views[bi]; ok {
+			pastViews = append(pastViews, vs...)
+			if len(pastViews) > 8 {
+				pastViews = pastViews[len(pastViews)-8:]
+			}
+		}
 		if p.Restart[bi] {
+			pastViews = nil
 			if err := r.a.Restart(); err != nil {
 				return // infrastructure (in-process restart), not an observation about bitxhub
 			}
@@ -629,6 +665,16 @@ func genPlan(rng *rand.Rand, surf []methodInfo, name string, focus string) *Plan
 		}
 		if rng.Intn(10) == 0 {
 			p.Restart[b] = true
+		}
+		if b == 1 && rng.Intn(3) == 0 {
+			// two views of one account: a transfer it can afford, then a call that fails; the next block moves most of the account's
+			// balance away; the plan's later view probes repeat both questions on the same and on a fresh view executor (what the
+			// failed view left behind must not keep the transfer affordable)
+			p.Views[b] = append(p.Views[b], Tx{K: "transfer", From: "u4", To: "u2", Amt: "1500000", Cls: "view-transfer"},
+				Tx{K: "invoke", From: "u4", C: "appchain", M: "GetAppchain", Args: []Arg{{"string", "chainZ"}}, Cls: "view-missing"})
+			p.Blocks = append(p.Blocks, []Tx{{K: "transfer", From: "u4", To: "u2", Amt: "2000000", Cls: "transfer"}})
+			nb++
+			b++
 		}
 	}
 	return p
